@@ -309,6 +309,9 @@ func (c *Ctx) FuncValueUses(nameRe string) []CallSite {
 			continue
 		}
 		for _, in := range ir.Instrs(fn) {
+			if _, isMC := in.(*ssa.MakeClosure); isMC {
+				continue // creating a closure is not a use of a named function as a value
+			}
 			var ops []*ssa.Value
 			ops = in.Operands(ops)
 			for oi, op := range ops {
